@@ -71,6 +71,7 @@ def run(ctx: Ctx):
     import_amisc()
     run_models(ctx)
     run_surrogates(ctx)
+    run_nan_samples(ctx)
 
 
 def run_models(ctx: Ctx):
@@ -213,3 +214,54 @@ def run_surrogates(ctx: Ctx):
                 a, b = vals[k], float(np.ravel(ys[k])[0])
                 if not ((a != a and b != b) or abs(a - b) <= 1e-12 * (1 + abs(a))):
                     ctx.violate('C06:batch-dependence', f'surrogate mode, sample {s}, {k}: {a} in the batch, {b} alone', {**case, 'sample': s}); break
+
+
+def run_nan_samples(ctx: Ctx):
+    """samples that become NaN inside a loop (NaN exogenous input, or a model that returns NaN once the iterate drifts): they must come
+    back NaN in every output of the loop, and must not disturb the other samples of the batch"""
+    from amisc import Component, System, Variable
+    rng = ctx.rng
+    for n in range(ctx.pick(10, 80)):
+        size = rng.randint(2, 3)
+        kind = rng.choice(['nan-input', 'sqrt-drift'])
+        xx = Variable('xx', domain=(0, 1))
+        us = [Variable(f'v{i}', domain=(-3.0, 3.0)) for i in range(size)]
+        g = rng.choice([0.4, 0.5, 0.9])
+
+        def first(inputs, _k=kind, _last=f'v{size - 1}', _g=g):
+            a = np.asarray(inputs['xx'], dtype=float); b = np.asarray(inputs[_last], dtype=float)
+            with np.errstate(invalid='ignore'):
+                return {'v0': np.sqrt(a - b) if _k == 'sqrt-drift' else _g * b + a}
+        comps = [Component(first, [xx, us[-1]], [us[0]], name='m0', vectorized=True)]
+        for i in range(1, size):
+            def nxt(inputs, _p=f'v{i - 1}', _o=f'v{i}', _g=g, _last=(i == size - 1)):
+                return {_o: _g * np.asarray(inputs[_p], dtype=float) + (0.2 if _last else -0.1)}
+            comps.append(Component(nxt, [us[i - 1]], [us[i]], name=f'm{i}', vectorized=True))
+        system = System(*comps, name=f'n{n}')
+        N = rng.randint(2, 5)
+        xs = np.array([round(0.55 + 0.4 * rng.random(), 4) for _ in range(N)])
+        bad = rng.randrange(N)
+        xs[bad] = np.nan if kind == 'nan-input' else 0.05 + 0.2 * rng.random()
+        case = {'nan_system': n, 'kind': kind, 'size': size, 'gain': g, 'xx': [None if v != v else float(v) for v in xs], 'bad_sample': bad}
+        ctx.case(case, nontrivial=True, kind=f'nan:{kind}')
+        try:
+            y = system.predict({'xx': xs}, use_model='best')
+        except Exception as e:
+            ctx.violate('C06:one-bad-sample-aborts-the-batch', f'System.predict raised {type(e).__name__}: {e} for a batch in which only sample {bad} '
+                        f'cannot converge', case)
+            continue
+        names = [f'v{i}' for i in range(size)]
+        for s in range(N):
+            vals = [float(np.ravel(y[k])[s]) for k in names]
+            nans = [v != v for v in vals]
+            if any(nans) and not all(nans):
+                ctx.violate('C06:stale-output-of-nan-sample', f'sample {s}: loop outputs {dict(zip(names, vals))} mix NaN and stale finite values', {**case, 'sample': s})
+            if s != bad:
+                try:
+                    ys = system.predict({'xx': xs[s:s + 1]}, use_model='best')
+                    for k in names:
+                        a, b = float(np.ravel(y[k])[s]), float(np.ravel(ys[k])[0])
+                        if not ((a != a and b != b) or abs(a - b) <= 1e-12 * (1 + abs(a))):
+                            ctx.violate('C06:batch-dependence', f'sample {s}, {k}: {a} in the batch with a NaN sample, {b} alone', {**case, 'sample': s}); break
+                except Exception:
+                    pass
